@@ -27,9 +27,11 @@ MISSING = object()     # read of a resource attribute that does not exist
 class Val:
     """value: python object | OPAQUE | MISSING; prov: [(resource class qual, attr)] leaves the value was read from;
     parts: for {**A, **B} merges the ordered (Val) operands"""
-    __slots__ = ('value', 'prov', 'parts', 'line', 'path')
+    __slots__ = ('value', 'prov', 'parts', 'line', 'path', 'fresh', 'origin')
 
     def __init__(self, value, prov=(), parts=None, line=None, path=None):
+        self.fresh = None        # True: object created for this instance; False: shared object; None: not determined
+        self.origin = ''
         self.value = value
         self.prov = list(prov)
         self.parts = parts
@@ -70,7 +72,7 @@ def ev(node, cx):
         if base == 'self':
             v = cx.state.attrs.get(node.attr)
             if v is None:
-                # a property of the same object
+                # a property of the same object, or a class-level attribute
                 pv = an.prop(cx.state.cls, node.attr, cx.state)
                 return pv if pv is not None else Val(OPAQUE, line=line)
             return v
@@ -142,6 +144,7 @@ class State:
         self.cls = cls
         self.attrs = {}          # self.X -> Val
         self.unit_calls = []     # [(Val, line, path)] add_dict_to_unit_map replay, in execution order
+        self.unit_targets = []   # the Val held by the bound-into attribute at each of those calls (None: not set per instance)
 
 
 def _is_super_init(call):
@@ -190,7 +193,7 @@ class Analysis:
                 self._stmt(s, cx, st, mro, i, k)
             return
 
-    def _stmt(self, s, cx, st, mro, i, k):
+    def _stmt(self, s, cx, st, mro, i, k, depth=0):
         where = '%s:%d %s.__init__' % (k.mod.rel, s.lineno, k.name)
         if isinstance(s, ast.Expr) and isinstance(s.value, ast.Constant):
             return
@@ -204,6 +207,25 @@ class Analysis:
             if _self_attr(c.func):
                 if c.func.attr == 'add_dict_to_unit_map' and len(c.args) == 1 and not c.keywords:
                     st.unit_calls.append((ev(c.args[0], cx), s.lineno, k.mod.path))
+                    st.unit_targets.append(st.attrs.get(self.map_attr))
+                    return
+                kk, hfn = self.idx.find_method(st.cls, c.func.attr)
+                if hfn is not None and isinstance(hfn, ast.FunctionDef) and depth < 4 and not hfn.args.vararg and not hfn.args.kwarg:
+                    # a helper of the same object called from the constructor: replay its body
+                    names = [a.arg for a in hfn.args.args][1:]
+                    loc = {}
+                    for nm, a in zip(names, c.args):
+                        loc[nm] = ev(a, cx)
+                    for kw in c.keywords:
+                        if kw.arg:
+                            loc[kw.arg] = ev(kw.value, cx)
+                    hcx = Ctx(self, kk.mod, st, loc)
+                    for hs in hfn.body:
+                        if isinstance(hs, ast.Return):
+                            break
+                        if isinstance(hs, ast.Expr) and isinstance(hs.value, ast.Call) and _is_super_init(hs.value):
+                            raise AnalysisError('%s: helper %s calls super().__init__' % (where, c.func.attr))
+                        self._stmt(hs, hcx, st, mro, i, kk, depth + 1)
                     return
                 raise AnalysisError('%s: call self.%s(...) in a configuration constructor is not modelled' % (where, c.func.attr))
             if _touches_self_state(s):
@@ -214,11 +236,15 @@ class Analysis:
             if s.value is None:
                 return
             v = ev(s.value, cx)
+            fresh, origin = self.freshness(s.value, cx, st)
             for t in targets:
                 if _self_attr(t):
                     vv = Val(v.value, v.prov, v.parts, s.lineno, k.mod.path)
+                    vv.fresh, vv.origin = fresh, origin
                     st.attrs[t.attr] = vv
                 elif isinstance(t, ast.Name):
+                    v = Val(v.value, v.prov, v.parts, v.line, v.path)
+                    v.fresh, v.origin = fresh, origin
                     cx.local[t.id] = v
                 else:
                     raise AnalysisError('%s: assignment target not modelled (%s)' % (where, ast.unparse(t)))
@@ -231,12 +257,69 @@ class Analysis:
             raise AnalysisError('%s: %s writes configuration state in a shape the replay does not model'
                                 % (where, type(s).__name__))
 
+    map_attr = 'unit_map'     # attribute add_dict_to_unit_map binds into (re-read from its AST by check_mechanisms)
+
+    def freshness(self, node, cx, st, depth=0):
+        """is the object this expression yields created for this configuration instance (True), an object shared by
+        several instances (False), or undetermined (None)?  + a description of where it lives"""
+        if isinstance(node, ast.Constant):
+            return True, 'constant'
+        if isinstance(node, (ast.Dict, ast.DictComp, ast.List, ast.ListComp, ast.Set, ast.SetComp)):
+            return True, 'literal'
+        if isinstance(node, ast.Call):
+            f = node.func
+            if isinstance(f, ast.Name) and f.id in ('dict', 'list', 'set', 'OrderedDict', 'defaultdict', 'deepcopy'):
+                return True, f.id + '()'
+            if isinstance(f, ast.Attribute) and f.attr in ('copy', 'deepcopy'):
+                return True, 'copy'
+            if _self_attr(f) and depth < 4:
+                kk, hfn = self.idx.find_method(st.cls, f.attr)
+                rets = [r for r in ast.walk(hfn) if isinstance(r, ast.Return)] if hfn is not None else []
+                if len(rets) == 1 and rets[0].value is not None:
+                    return self.freshness(rets[0].value, Ctx(self, kk.mod, st), st, depth + 1)
+            return None, 'result of ' + ast.unparse(f)
+        if isinstance(node, ast.Name):
+            if node.id in cx.local:
+                return cx.local[node.id].fresh, cx.local[node.id].origin
+            r = self.idx.resolve(cx.mod, node.id)
+            if r and r[0] == 'const':
+                return False, 'module-level object %s.%s' % (r[1].name, node.id)
+            return None, 'name ' + node.id
+        if isinstance(node, ast.Attribute) and isinstance(node.value, ast.Name):
+            if node.value.id == 'self':
+                v = st.attrs.get(node.attr)
+                if v is not None:
+                    return v.fresh, v.origin
+                kk, anode = self.idx.class_attr(st.cls, node.attr)
+                if anode is not None:
+                    return False, 'class-level attribute %s.%s' % (kk.name, node.attr)
+                return None, ast.unparse(node)
+            r = self.idx.resolve(cx.mod, node.value.id)
+            if r and r[0] == 'class':
+                return False, 'class-level object %s.%s' % (r[1].name, node.attr)
+        return None, ast.unparse(node)[:60]
+
+    def attr(self, cls, name, st=None):
+        """what `config.<name>` yields: the per-instance value the constructors stored, else the class-level attribute"""
+        st = st or self.state(cls)
+        v = st.attrs.get(name)
+        if v is not None:
+            return v
+        kk, anode = self.idx.class_attr(cls, name)
+        if anode is None:
+            return None
+        v = ev(anode, Ctx(self, kk.mod, st))
+        vv = Val(v.value, v.prov, v.parts, getattr(anode, 'lineno', None), kk.mod.path)
+        vv.fresh = False
+        vv.origin = 'class-level attribute %s.%s = %s' % (kk.name, name, ast.unparse(anode)[:40])
+        return vv
+
     # ---- properties / attributes as the base code reads them (config.<name>)
     def prop(self, cls, name, st=None):
         st = st or self.state(cls)
         k, fn = self.idx.find_method(cls, name)
         if fn is None:
-            return st.attrs.get(name)
+            return self.attr(cls, name, st)
         body = [b for b in fn.body if not (isinstance(b, ast.Expr) and isinstance(b.value, ast.Constant))]
         if len(body) == 1 and isinstance(body[0], ast.Return):
             if body[0].value is None:
@@ -296,13 +379,114 @@ def strip_brackets(u):
     return u
 
 
-def parser_lookup(unit_map, text, connector, tail=''):
-    """NumberWithUnitParser.parse key normalisation for a unit text that stands alone next to the number"""
+class TokExpr:
+    """a string expression over the configuration's connector token, read from the parser's AST: parts are literal
+    strings or the token itself (TOKEN); evaluated per configuration"""
+    TOKEN = object()
+
+    def __init__(self, parts, src):
+        self.parts, self.src = parts, src
+
+    def __call__(self, token):
+        return ''.join((token or '') if p is TokExpr.TOKEN else p for p in self.parts)
+
+
+def tok_expr(e, aliases):
+    """AST -> TokExpr | None (not an expression over the connector token this reader understands)"""
+    if isinstance(e, ast.Constant) and isinstance(e.value, str):
+        return TokExpr([e.value], ast.unparse(e))
+    if ast.unparse(e) == 'self.config.connector_token' or (isinstance(e, ast.Name) and e.id in aliases):
+        return TokExpr([TokExpr.TOKEN], ast.unparse(e))
+    if isinstance(e, ast.BinOp) and isinstance(e.op, ast.Add):
+        a, b = tok_expr(e.left, aliases), tok_expr(e.right, aliases)
+        if a and b:
+            return TokExpr(a.parts + b.parts, ast.unparse(e))
+        return None
+    if isinstance(e, ast.JoinedStr):
+        parts = []
+        for v in e.values:
+            if isinstance(v, ast.FormattedValue):
+                if v.conversion != -1 or v.format_spec is not None:
+                    return None
+                t = tok_expr(v.value, aliases)
+            else:
+                t = tok_expr(v, aliases)
+            if t is None:
+                return None
+            parts += t.parts
+        return TokExpr(parts, ast.unparse(e))
+    return None
+
+
+def read_connector_guard(fn, exact_name, low_name):
+    """the leading-connector strip of NumberWithUnitParser.parse as written:
+    if [T and] <lowered key>.startswith(E): <lowered> = <lowered>[len(L):].strip(); <exact> = <exact>[len(L):].strip()
+    -> dict(prefix=TokExpr E, cut=TokExpr L, needs_token=bool); AnalysisError for shapes that cannot be evaluated"""
+    W = 'NumberWithUnitParser.parse'
+    aliases = {t.id for a in ast.walk(fn) if isinstance(a, ast.Assign) and ast.unparse(a.value) == 'self.config.connector_token'
+               for t in a.targets if isinstance(t, ast.Name)}
+    for al in aliases:
+        if sum(1 for a in ast.walk(fn) if isinstance(a, (ast.Assign, ast.AugAssign)) for t in (a.targets if isinstance(a, ast.Assign) else [a.target])
+               if isinstance(t, ast.Name) and t.id == al) != 1:
+            raise AnalysisError('%s: local %s (connector token) is assigned more than once' % (W, al))
+
+    def mentions_token(n):
+        return 'self.config.connector_token' in ast.unparse(n) or any(isinstance(x, ast.Name) and x.id in aliases for x in ast.walk(n))
+    conn = [n for n in ast.walk(fn) if isinstance(n, ast.If) and mentions_token(n.test)]
+    if len(conn) != 1:
+        raise AnalysisError('%s: connector-token guard not recognised (%d candidate if-statements)' % (W, len(conn)))
+    g = conn[0]
+    t = g.test
+    conj = t.values if isinstance(t, ast.BoolOp) and isinstance(t.op, ast.And) else [t]
+    sw = [v for v in conj if isinstance(v, ast.Call) and isinstance(v.func, ast.Attribute) and v.func.attr == 'startswith'
+          and isinstance(v.func.value, ast.Name) and v.func.value.id == low_name and len(v.args) == 1 and not v.keywords]
+    rest = [v for v in conj if v not in sw]
+    needs = False
+    for v in rest:
+        te = tok_expr(v, aliases)
+        if te is None or te.parts != [TokExpr.TOKEN]:
+            raise AnalysisError('%s: connector-token guard has a condition this reader cannot evaluate (%s)' % (W, ast.unparse(v)))
+        needs = True
+    if len(sw) != 1 or g.orelse:
+        raise AnalysisError('%s: connector-token guard is not `[token and] %s.startswith(E)` (%s)' % (W, low_name, ast.unparse(t)))
+    prefix = tok_expr(sw[0].args[0], aliases)
+    if prefix is None:
+        raise AnalysisError('%s: cannot evaluate the prefix %s of the connector-token guard' % (W, ast.unparse(sw[0].args[0])))
+    cuts = {}
+    for st in g.body:
+        ok = False
+        if isinstance(st, ast.Assign) and len(st.targets) == 1 and isinstance(st.targets[0], ast.Name) \
+                and st.targets[0].id in (exact_name, low_name):
+            v = st.value
+            if isinstance(v, ast.Call) and isinstance(v.func, ast.Attribute) and v.func.attr == 'strip' and not v.args:
+                sub = v.func.value
+                if isinstance(sub, ast.Subscript) and isinstance(sub.value, ast.Name) and sub.value.id == st.targets[0].id \
+                        and isinstance(sub.slice, ast.Slice) and sub.slice.upper is None and sub.slice.step is None \
+                        and isinstance(sub.slice.lower, ast.Call) and isinstance(sub.slice.lower.func, ast.Name) \
+                        and sub.slice.lower.func.id == 'len' and len(sub.slice.lower.args) == 1:
+                    le = tok_expr(sub.slice.lower.args[0], aliases)
+                    if le is not None:
+                        cuts[st.targets[0].id] = le
+                        ok = True
+        if not ok:
+            raise AnalysisError('%s:%d statement in the connector-token strip is not `k = k[len(L):].strip()`' % (W, st.lineno))
+    if set(cuts) != {exact_name, low_name} or cuts[exact_name].parts != cuts[low_name].parts:
+        raise AnalysisError('%s: connector-token strip does not cut the exact and the lowered key alike' % W)
+    return {'prefix': prefix, 'cut': cuts[low_name], 'needs_token': needs,
+            'prefix_src': prefix.src, 'cut_src': cuts[low_name].src}
+
+
+def parser_lookup(unit_map, text, connector, guard=None):
+    """NumberWithUnitParser.parse key normalisation for a unit text that stands alone next to the number;
+    guard: what read_connector_guard found (default: the pinned `token and key.startswith(token + ' ')`)"""
     last = text.strip()
     norm = last.lower()
-    if connector and norm.startswith(connector + tail):
-        norm = norm[len(connector):].strip()
-        last = last[len(connector):].strip()
+    if guard is None:
+        guard = {'prefix': TokExpr([TokExpr.TOKEN, ' '], ''), 'cut': TokExpr([TokExpr.TOKEN], ''), 'needs_token': True}
+    if (connector or not guard['needs_token']) and norm.startswith(guard['prefix'](connector)):
+        n = len(guard['cut'](connector))
+        norm = norm[n:].strip()
+        last = last[n:].strip()
     last, norm = strip_brackets(last), strip_brackets(norm)
     if last in unit_map:
         return unit_map[last], last
@@ -397,9 +581,14 @@ def check_mechanisms(chk, idx):
     c, fn = _own(idx, NWU + '.parsers.NumberWithUnitParserConfiguration', 'add_dict_to_unit_map')
     chk.consulted(c.mod.path)
     bd = _calls(fn, 'bind_dictionary')
-    if len(bd) != 1 or len(bd[0].args) != 2 or _src(bd[0].args[1]) != 'self.unit_map':
-        raise AnalysisError('NumberWithUnitParserConfiguration.add_dict_to_unit_map: not bind_dictionary(d, self.unit_map)')
-    chk.ok(R, c.mod.path, 'NumberWithUnitParserConfiguration.add_dict_to_unit_map', 'bind_dictionary(dictionary, self.unit_map)', fn.lineno)
+    if len(bd) != 1 or len(bd[0].args) != 2 or not _self_attr(bd[0].args[1]):
+        raise AnalysisError('NumberWithUnitParserConfiguration.add_dict_to_unit_map: not bind_dictionary(d, self.<map>)')
+    out['map_attr'] = bd[0].args[1].attr
+    reads = [n for m2 in (idx.cls(NWU + '.parsers.NumberWithUnitParser').methods.values()) for n in ast.walk(m2)
+             if isinstance(n, ast.Attribute) and _src(n) == 'self.config.' + out['map_attr']]
+    if not reads:
+        raise AnalysisError('NumberWithUnitParser never reads config.%s, the map add_dict_to_unit_map binds into' % out['map_attr'])
+    chk.ok(R, c.mod.path, 'NumberWithUnitParserConfiguration.add_dict_to_unit_map', 'bind_dictionary(dictionary, self.%s)' % out['map_attr'], fn.lineno)
     # -- parser key normalisation
     c, fn = _own(idx, NWU + '.parsers.NumberWithUnitParser', 'parse')
     looked = []
@@ -414,35 +603,14 @@ def check_mechanisms(chk, idx):
     low = [x for x in looked if x in lowered]
     if len(exact) != 1 or len(low) != 1 or lowered[low[0]] != exact[0]:
         raise AnalysisError('NumberWithUnitParser.parse: "exact key, then lower-cased key in unit_map" idiom not recognised (%s)' % looked)
-    conn = [n for n in ast.walk(fn) if isinstance(n, ast.If) and 'self.config.connector_token' in _src(n.test)]
-    if len(conn) != 1:
-        raise AnalysisError('NumberWithUnitParser.parse: connector-token guard not recognised')
-    t = conn[0].test
-    sw = [n for n in _calls(t, 'startswith') if isinstance(n.func.value, ast.Name) and n.func.value.id == low[0] and len(n.args) == 1]
-    tail = None
-    if len(sw) == 1:
-        a = sw[0].args[0]
-        if _src(a) == 'self.config.connector_token':
-            tail = ''
-        elif isinstance(a, ast.BinOp) and isinstance(a.op, ast.Add) and _src(a.left) == 'self.config.connector_token' \
-                and isinstance(a.right, ast.Constant) and isinstance(a.right.value, str):
-            tail = a.right.value
-    if tail is None or not (isinstance(t, ast.BoolOp) and isinstance(t.op, ast.And) and len(t.values) == 2
-                            and _src(t.values[0]) == 'self.config.connector_token' and t.values[1] is sw[0]):
-        raise AnalysisError('NumberWithUnitParser.parse: connector-token guard has changed shape (%s); the key '
-                            'normalisation re-stated in C05.key must be revisited' % _src(t))
-    cuts = [n for n in ast.walk(conn[0]) if isinstance(n, ast.Subscript) and isinstance(n.slice, ast.Slice)]
-    if len(cuts) < 2 or any(n.slice.lower is None or _src(n.slice.lower) != 'len(self.config.connector_token)' or n.slice.upper
-                            for n in cuts) or len(_calls(conn[0], 'strip')) < 2:
-        raise AnalysisError('NumberWithUnitParser.parse: connector-token stripping not recognised')
-    out['connector_tail'] = tail
+    out['connector'] = read_connector_guard(fn, exact[0], low[0])
     bc, bfn = _own(idx, NWU + '.parsers.NumberWithUnitParser', '__delete_brackets_if_exists')
     pairs = sorted((n.args[0].value) for n in _calls(bfn, 'startswith') if n.args and isinstance(n.args[0], ast.Constant))
     if pairs != sorted('([{<'):
         raise AnalysisError('NumberWithUnitParser.__delete_brackets_if_exists: bracket set changed (%s)' % pairs)
     chk.ok(R, c.mod.path, 'NumberWithUnitParser.parse',
-           'key: strip; lower; strip leading connector token when the key starts with token%s; strip one bracket pair; '
-           'exact then lowered lookup' % (' + %r' % tail if tail else ' (plain startswith, no word boundary)'), fn.lineno)
+           'key: strip; lower; when the lowered key starts with %s cut len(%s) and strip; strip one bracket pair; '
+           'exact then lowered lookup' % (out['connector']['prefix_src'], out['connector']['cut_src']), fn.lineno)
     # -- extractor builds both matchers and the separate regex from suffix_list / prefix_list values split on '|'
     c, fn = _own(idx, NWU + '.extractors.NumberWithUnitExtractor', '__init__')
     chk.consulted(c.mod.path)
@@ -927,6 +1095,8 @@ def run(chk):
              '(suffix_list + prefix_list values vs unit_map keys); tables non-empty', floor=22, control=True)
     chk.rule('C05.merge', '{**A, **B} table merges have no unit key with differing spelling lists', floor=4, control=True)
     chk.rule('C05.side', '*PrefixList tables are wired into prefix_list and *SuffixList tables into suffix_list', floor=35, control=True)
+    chk.rule('C05.fresh', 'the map add_dict_to_unit_map binds into is a fresh per-instance dict when the constructors fill it '
+             '(not a class-level / module-level object shared by all configurations)', floor=20, control=True)
     chk.rule('C05.shadow', 'replaying add_dict_to_unit_map in order, every spelling is bound to the unit whose entry lists it',
              floor=9000, control=True)
     chk.rule('C05.key', "every bound spelling is found again by the parser's own key normalisation (connector-token strip, "
@@ -952,6 +1122,7 @@ def run(chk):
              'base number-with-unit code exists', floor=150, control=True)
 
     mech = check_mechanisms(chk, idx)
+    an.map_attr = mech['map_attr']
     rec, regs = read_registrations(idx)
     chk.consulted(rec.mod.path)
     langs = sorted(m[len(NWU) + 1:].split('.')[0] for m in idx.mods
@@ -983,6 +1154,7 @@ def run(chk):
         if pq not in done_p:
             done_p.add(pq)
             nforms += rule_shadow_key_case(ctx, p, ex, pa)
+    rule_fresh(ctx)
     rule_ratio_use(ctx)
     rule_currency(ctx)
     rule_purity_dangling(ctx)
@@ -1301,15 +1473,81 @@ def extractor_tables(ctx, ecfg):
     return out
 
 
+def map_origin(ctx, pcfg):
+    """('fresh' | 'shared', Val) for the map add_dict_to_unit_map binds into while pcfg's constructors run"""
+    cache = ctx.setdefault('_origins', {})
+    if pcfg.qual in cache:
+        return cache[pcfg.qual]
+    an = ctx['an']
+    st = an.state(pcfg)
+    name = an.map_attr
+    tg = st.unit_targets
+    if tg and any(t is not tg[0] for t in tg):
+        raise AnalysisError('%s: %s is re-assigned between add_dict_to_unit_map calls' % (pcfg.qual, name))
+    v = tg[0] if tg and tg[0] is not None else an.attr(pcfg, name, st)
+    if v is None:
+        raise AnalysisError('%s: no attribute %s on the instance or its classes when add_dict_to_unit_map runs' % (pcfg.qual, name))
+    if tg and tg[0] is None and st.attrs.get(name) is not None:
+        raise AnalysisError('%s: %s is assigned only after add_dict_to_unit_map has run' % (pcfg.qual, name))
+    if v.fresh is True:
+        if not v.known or v.value != {}:
+            raise AnalysisError('%s: %s starts from a non-empty or unknown value (%s)' % (pcfg.qual, name, v.origin))
+        res = ('fresh', v)
+    elif v.fresh is False:
+        res = ('shared', v)
+    else:
+        raise AnalysisError('%s: cannot tell whether %s (%s) is created per instance' % (pcfg.qual, name, v.origin))
+    cache[pcfg.qual] = res
+    return res
+
+
+def cross_bindings(tables_by_cfg):
+    """{cfg: ordered [(table, dict)]} bound into ONE map -> spellings that different configurations bind to different units"""
+    seen, out = {}, {}
+    for cfg, tabs in tables_by_cfg.items():
+        um, _, _ = replay_unit_map(tabs)
+        for tok, unit in um.items():
+            if tok in seen and seen[tok][1] != unit:
+                out.setdefault(tok, {seen[tok]}).add((cfg, unit))
+            seen.setdefault(tok, (cfg, unit))
+    return out
+
+
+def rule_fresh(ctx):
+    chk, an = ctx['chk'], ctx['an']
+    shared = {}
+    pcfgs = {}
+    for p in ctx['pairs'].values():
+        pcfgs[p.pcfg.qual] = p.pcfg
+    for q, pcfg in sorted(pcfgs.items()):
+        kind, v = map_origin(ctx, pcfg)
+        if kind == 'fresh':
+            chk.ok('C05.fresh', v.path or pcfg.mod.path, '%s.%s' % (pcfg.name, an.map_attr), 'per-instance ' + v.origin, v.line)
+        else:
+            shared.setdefault((v.path, v.line, v.origin), []).append(pcfg)
+    for (path, line, origin), cfgs in sorted(shared.items(), key=lambda kv: str(kv[0])):
+        tabs = {}
+        for c in cfgs:
+            pa = parser_tables(ctx, c)
+            if not isinstance(pa, str):
+                tabs[c.name] = [(n, d) for n, d, _, _, _ in pa]
+        cross = cross_bindings(tabs)
+        ex = ['%r: %s' % (tok, ' / '.join("'%s' (%s)" % (u, c) for c, u in sorted(v))) for tok, v in sorted(cross.items())[:4]]
+        chk.bad('C05.fresh', path or cfgs[0].mod.path, '%s shared by %d configurations' % (an.map_attr, len(cfgs)),
+                origin,
+                "add_dict_to_unit_map binds into %s, one object shared by %s: the tables of every configuration built in the "
+                'process end up in ONE map under first-binding-wins, so the unit of a spelling depends on which model was built '
+                'first; %d spelling(s) are listed under different units by different configurations, e.g. %s'
+                % (origin, ', '.join(c.name for c in cfgs[:4]) + (' ...' if len(cfgs) > 4 else ''), len(cross), '; '.join(ex)), line)
+
+
 def parser_tables(ctx, pcfg):
     """ordered [(table name, dict, line, path, prov)] or a string describing why it cannot be built"""
     cache = ctx.setdefault('_ptabs', {})
     if pcfg.qual in cache:
         return cache[pcfg.qual]
     st = ctx['an'].state(pcfg)
-    um0 = st.attrs.get('unit_map')
-    if um0 is None or not um0.known or um0.value != {}:
-        raise AnalysisError('%s: unit_map is not initialised to an empty dict by the base constructor' % pcfg.qual)
+    map_origin(ctx, pcfg)       # AnalysisError when the bound-into map cannot be classified
     out = []
     for v, line, path in st.unit_calls:
         if v.value is OPAQUE:
@@ -1405,7 +1643,7 @@ def rule_shadow_key_case(ctx, p, ex, pa):
                 if by.get(tok) != tname:
                     continue       # duplicate listing of the same unit in a later table
                 # -- the parser finds its own key
-                got, k = parser_lookup(um, tok, conn, mech['connector_tail'])
+                got, k = parser_lookup(um, tok, conn, mech['connector'])
                 if got != unit:
                     why = ("key '%s' unbound" % k) if got is None else ("key '%s' -> '%s'" % (k, got))
                     (blank_fail if tok != tok.strip() else key_fail).append("'%s' (%s): %s" % (tok, unit, why))
@@ -1513,7 +1751,7 @@ def rule_currency(ctx):
         ownv = an.R.values(ownc)
         wired = {}
         for slot, where, attr in SLOTS:
-            v = st.attrs.get(slot)
+            v = an.attr(pcfg, slot, st)
             src, srcname = (ownv, ownc.name) if where == 'own' else (basev, basec.name)
             construct = '%s.%s' % (pcfg.name, slot)
             path, line = (v.path or pcfg.mod.path, v.line) if v is not None else (pcfg.mod.path, None)
@@ -1681,9 +1919,19 @@ def controls(chk, mech):
                 and not merge_collisions([('T1', {'A': 'x'}), ('T2', {'A': 'x'})]))
     # key: connector token eats the head of a spelling; leading blank in a key
     um = {'decimetro': 'Decimetro', 'metro': 'Metro', ' pinta': 'Pinta'}
-    chk.control('C05.key', parser_lookup(um, 'decimetro', 'de')[0] is None and parser_lookup(um, 'metro', 'de')[0] == 'Metro'
-                and parser_lookup(um, 'decimetro', 'de', ' ')[0] == 'Decimetro' and parser_lookup(um, 'de metro', 'de', ' ')[0] == 'Metro'
-                and parser_lookup(um, '(metro)', '')[0] == 'Metro')
+    gsrc = ("def parse(self, source):\n"
+            "    norm = last.lower()\n"
+            "    tok = self.config.connector_token\n"
+            "    if tok and norm.startswith(%s):\n"
+            "        norm = norm[len(tok):].strip()\n"
+            "        last = last[len(tok):].strip()\n")
+    plain = read_connector_guard(ast.parse(gsrc % 'tok').body[0], 'last', 'norm')
+    spaced = read_connector_guard(ast.parse(gsrc % "f'{tok} '").body[0], 'last', 'norm')
+    chk.control('C05.key', parser_lookup(um, 'decimetro', 'de', plain)[0] is None and parser_lookup(um, 'metro', 'de', plain)[0] == 'Metro'
+                and parser_lookup(um, 'decimetro', 'de', spaced)[0] == 'Decimetro' and parser_lookup(um, 'de metro', 'de', spaced)[0] == 'Metro'
+                and parser_lookup(um, 'decimetro', 'de')[0] == 'Decimetro' and parser_lookup(um, '(metro)', '')[0] == 'Metro')
+    xb = cross_bindings({'Dim': [('L', {'Foot': 'ft|foot'})], 'Cur': [('C', {'Forint': 'ft|forint'})]})
+    chk.control('C05.fresh', sorted(xb) == ['ft'] and not cross_bindings({'A': [('L', {'Foot': 'ft'})], 'B': [('M', {'Foot': 'ft'})]}))
     chk.control('C05.blank', parser_lookup(um, ' pinta', '')[0] is None)
     pre = mech['preprocess']
     chk.control('C05.case', pre('5 Rwandan Zorkmid ') == '5 rwandan zorkmid '
